@@ -61,7 +61,7 @@ def run(tier):
                 res.sample({"wrapper": short, "site": f.path, "operand": sym_str(val, 80), "guarded": ok})
         res.count("construction sites %s" % short, n_sites)
         res.count("serde construction sites %s (not judged)" % short, n_serde)
-        res.floor("construction sites of %s" % short, n_sites, 2)
+        res.floor("construction sites of %s" % short, n_sites, 1)   # TryFrom and Decode may share one constructor
         # a Decode impl must exist and be among the judged sites
         dec = [f for f in P.fns.values() if f.b.get("impl_adt") == w and (f.b.get("impl_trait") or "").endswith("minicbor::decode::Decode") and f.name == "decode"]
         if len(dec) == 1:
